@@ -531,6 +531,9 @@ func (f *cntFS) Filecmd(r *sftp.Request) error {
 			return sftp.ErrSSHFxBadMessage
 		}
 		if r.AttrFlags().Size && !n.dir {
+			if a.Size > 1<<20 { // in-memory files are not sparse: refuse absurd sizes instead of allocating them
+				return syscall.EFBIG
+			}
 			d := make([]byte, a.Size)
 			copy(d, n.data)
 			n.data = d
@@ -651,6 +654,9 @@ func (o *cntObj) readAt(p []byte, off int64) (int, error) {
 	defer o.fs.mu.Unlock()
 	o.Reads++
 	o.fs.logf("ReadAt #%d %s off=%d len=%d closed=%d", o.ID, o.Kind, off, len(p), o.Closed)
+	if off < 0 { // the request server hands the 64-bit wire offset through as int64
+		return 0, syscall.EINVAL
+	}
 	if off >= int64(len(o.node.data)) {
 		return 0, io.EOF
 	}
@@ -792,10 +798,24 @@ type ssReq struct {
 	Handle    string
 	HasHandle bool
 	Pf        uint32
-	Soft      bool  // attribute block shorter than its flags promise (framing intact)
-	Off, Len  int   // position of the frame in the stream
-	StrOffs   []int // offsets inside the frame of every string-length field
-	StrLens   []int // … and the values of those fields
+	RdLen     uint32    // READ: the length asked for
+	Soft      bool      // attribute block shorter than its flags promise (framing intact)
+	Off, Len  int       // position of the frame in the stream
+	StrOffs   []int     // offsets inside the frame of every string-length field
+	StrLens   []int     // … and the values of those fields
+	Fields    []ssField // every integer field of the frame body (id, string lengths, offsets, flags, attribute words, counts)
+}
+
+// ssField is one integer field of a request frame as the judge read it: where it sits in the
+// frame, how wide it is and what it means.  String-length fields carry Str (and the C07 field
+// mutations may then resize the string with it); Flags marks the flags word of an attribute block.
+type ssField struct {
+	Off   int    `json:"off"`             // offset inside the frame (0 = the frame's length prefix)
+	W     int    `json:"w"`               // 4 | 8
+	Name  string `json:"name"`            // id handle-len offset len pflags attr-flags attr-size …
+	Val   uint64 `json:"val"`             // the value read
+	Str   bool   `json:"str,omitempty"`   // the length word of a string
+	Flags bool   `json:"flags,omitempty"` // the flags word of an attribute block
 }
 
 type ssCur struct {
@@ -804,6 +824,7 @@ type ssCur struct {
 	bad  bool
 	strs []int
 	lens []int
+	flds []ssField
 }
 
 func (c *ssCur) u32() uint32 {
@@ -816,6 +837,32 @@ func (c *ssCur) u32() uint32 {
 	return v
 }
 func (c *ssCur) u64() uint64 { hi := c.u32(); lo := c.u32(); return uint64(hi)<<32 | uint64(lo) }
+
+// f32 / f64 / fstr read a field and record it under a name.
+func (c *ssCur) f32(name string) uint32 {
+	at := c.pos
+	v := c.u32()
+	if !c.bad {
+		c.flds = append(c.flds, ssField{Off: at + 5, W: 4, Name: name, Val: uint64(v)})
+	}
+	return v
+}
+func (c *ssCur) f64(name string) uint64 {
+	at := c.pos
+	v := c.u64()
+	if !c.bad {
+		c.flds = append(c.flds, ssField{Off: at + 5, W: 8, Name: name, Val: v})
+	}
+	return v
+}
+func (c *ssCur) fstr(name string) string {
+	at, n := c.pos, len(c.strs)
+	s := c.str()
+	if len(c.strs) > n {
+		c.flds = append(c.flds, ssField{Off: at + 5, W: 4, Name: name + "-len", Val: uint64(len(s)), Str: true})
+	}
+	return s
+}
 func (c *ssCur) str() string {
 	at := c.pos
 	n := c.u32()
@@ -832,29 +879,30 @@ func (c *ssCur) str() string {
 
 // attrs parses flags word + by-flag fields; a missing flags word is a hard error, a short block a soft one.
 func (c *ssCur) attrs() (soft bool) {
-	fl := c.u32()
+	fl := c.f32("attr-flags")
 	if c.bad {
 		return false
 	}
+	c.flds[len(c.flds)-1].Flags = true
 	if fl&wire.ASize != 0 {
-		c.u64()
+		c.f64("attr-size")
 	}
 	if fl&wire.AUIDGID != 0 {
-		c.u32()
-		c.u32()
+		c.f32("attr-uid")
+		c.f32("attr-gid")
 	}
 	if fl&wire.APerm != 0 {
-		c.u32()
+		c.f32("attr-perm")
 	}
 	if fl&wire.ATime != 0 {
-		c.u32()
-		c.u32()
+		c.f32("attr-atime")
+		c.f32("attr-mtime")
 	}
 	if fl&wire.AExt != 0 {
-		n := c.u32()
+		n := c.f32("attr-ext-count")
 		for i := uint32(0); i < n && !c.bad; i++ {
-			c.str()
-			c.str()
+			c.fstr("attr-ext-name")
+			c.fstr("attr-ext-data")
 		}
 	}
 	if c.bad {
@@ -882,62 +930,62 @@ func ssParseReq(typ byte, body []byte) (q ssReq, why string) {
 	}
 	q.Kind = kind
 	if typ != wire.Init {
-		q.ID = c.u32()
+		q.ID = c.f32("id")
 	}
-	h := func() { q.Handle = c.str(); q.HasHandle = true }
+	h := func() { q.Handle = c.fstr("handle"); q.HasHandle = true }
 	switch typ {
 	case wire.Init:
-		c.u32()
+		c.f32("version")
 		for !c.bad && c.pos < len(c.b) {
-			c.str()
-			c.str()
+			c.fstr("init-ext-name")
+			c.fstr("init-ext-data")
 		}
 	case wire.Open:
-		c.str()
-		q.Pf = c.u32()
+		c.fstr("path")
+		q.Pf = c.f32("pflags")
 		q.Soft = c.attrs()
 	case wire.Close, wire.Fstat, wire.Readdir:
 		h()
 	case wire.Read:
 		h()
-		c.u64()
-		c.u32()
+		c.f64("offset")
+		q.RdLen = c.f32("len")
 	case wire.Write:
 		h()
-		c.u64()
-		c.str()
+		c.f64("offset")
+		c.fstr("data")
 	case wire.Setstat:
-		c.str()
+		c.fstr("path")
 		q.Soft = c.attrs()
 	case wire.Fsetstat:
 		h()
 		q.Soft = c.attrs()
 	case wire.Mkdir:
-		c.str()
-		c.u32() // flags word; the rest of the attribute block is documented as ignored
+		c.fstr("path")
+		c.f32("attr-flags") // flags word; the rest of the attribute block is documented as ignored
 	case wire.Rename, wire.Symlink:
-		c.str()
-		c.str()
+		c.fstr("path")
+		c.fstr("path2")
 	case wire.Extended:
-		name := c.str()
+		name := c.fstr("ext-name")
 		switch name {
 		case "statvfs@openssh.com":
-			c.str()
+			c.fstr("path")
 			q.Kind = "ext:" + name
 		case "posix-rename@openssh.com", "hardlink@openssh.com":
-			c.str()
-			c.str()
+			c.fstr("path")
+			c.fstr("path2")
 			q.Kind = "ext:" + name
 		default:
 			q.Kind = "ext-unknown"
 		}
 	default:
-		c.str()
+		c.fstr("path")
 	}
 	if c.bad {
 		return q, "short-body"
 	}
-	q.StrOffs, q.StrLens = c.strs, c.lens
+	q.StrOffs, q.StrLens, q.Fields = c.strs, c.lens, c.flds
 	return q, ""
 }
 
